@@ -162,7 +162,8 @@ def h_summary(k: int) -> bool:
     why = None
     with scen.untraced():
         keys = TABLES[P["table"]]
-        counts = {keys[0]: 3, keys[1]: 5, keys[2]: 7, keys[3]: 2}
+        # ties in size AND in line count (P["ties"]) leave nothing but the names to order the rows by
+        counts = {keys[0]: 3, keys[1]: 3, keys[2]: 3, keys[3]: 3} if P.get("ties") else {keys[0]: 3, keys[1]: 5, keys[2]: 7, keys[3]: 2}
 
         def run(order):
             sm = defaultdict(int)
@@ -367,8 +368,9 @@ def obligations(tier, known):
                       group="find"))
     for i in range(len(TABLES)):
         expect = "witness:C14-summary-order" if "C14-summary-order" in known else "hold"
-        obs.append(Ob(id="summary/table%d" % i, kind="ch", module=__name__, func="h_summary", params=dict(table=i), timeout=200,
-                      group="summary", expect=expect))
+        for ties in (False, True):
+            obs.append(Ob(id="summary/table%d%s" % (i, "-ties" if ties else ""), kind="ch", module=__name__, func="h_summary",
+                          params=dict(table=i, ties=ties), timeout=200, group="summary", expect=expect))
     obs.append(Ob(id="dup/orders", kind="ch", module=__name__, func="h_dup", params={}, timeout=300, group="dup"))
     from vp.harness import c07
 
